@@ -3,9 +3,11 @@ package simdrv
 import (
 	"fmt"
 	"os"
+	"runtime"
 	"sort"
 	"strconv"
 	"strings"
+	"time"
 
 	"golang.org/x/tools/go/packages"
 
@@ -238,12 +240,18 @@ func (w *Worker) execCLI(args []string, visits []simapi.Visit, v *simapi.Variant
 	if v.Sched != nil {
 		out.SchedOn = true
 	}
+	goroutines0 := runtime.NumGoroutine()
 	fe := w.runFrontEnd(args, corpus, pkgs, v.Sched, w.afterInit)
 	if simrt.Active() {
 		simrt.Drain()
 		out.Sched = simrt.Stop()
 		if keepDecisions {
 			out.Decisions = simrt.Decisions()
+		}
+		// every task has ended; let their goroutines unwind before anything else runs
+		for deadline := time.Now().Add(5 * time.Second); runtime.NumGoroutine() > goroutines0 && time.Now().Before(deadline); {
+			runtime.Gosched()
+			time.Sleep(50 * time.Microsecond)
 		}
 	}
 	out.Races = raceErrors() - race0
